@@ -15,10 +15,10 @@
 using namespace sim; using namespace sapp;
 
 enum { ST_RUNS, ST_SETS, ST_CYCLES, ST_LOADS, F_CRASH, F_LOST, F_TORN, F_FLIP, F_HEADER, F_APPNAME, F_GARBAGE, F_UNKNOWN_PORT, F_PERMUTED, F_DEP_LINE_DELETED,
-       P_UNTOUCHED, P_LINES3, P_NEG_VALUE, P_FLOAT_LINE, P_TOGGLE_LINE, P_STRING_SPECIAL, P_ARRAY_LINE, P_PRESET_NONZERO, P_SUBTREE_LINE, P_PTR_SUBTREE_LINE, P_PRUNED, P_OPTION_LINE, P_PERM_ALL, P_PERM_SAMPLED, P_DEP_ORDER_MATTERED, P_TORN_ACCEPTED, P_NAME_WITH_BLANK, ST_N };
+       P_UNTOUCHED, P_LINES3, P_NEG_VALUE, P_FLOAT_LINE, P_TOGGLE_LINE, P_STRING_SPECIAL, P_ARRAY_LINE, P_PRESET_NONZERO, P_SUBTREE_LINE, P_PTR_SUBTREE_LINE, P_PRUNED, P_OPTION_LINE, P_PERM_ALL, P_PERM_SAMPLED, P_DEP_ORDER_MATTERED, P_TORN_ACCEPTED, P_NAME_WITH_BLANK, P_NEAR_MISS_PORT, ST_N };
 static const char *STAT_NAMES[ST_N] = { "runs", "sets", "save_crash_restart_load_cycles", "evaluations", "fault.crash_restart", "fault.lost_write", "fault.torn_write", "fault.flipped_byte", "fault.foreign_header", "fault.other_application", "fault.unparsable_line", "fault.unknown_port_line", "fault.lines_permuted", "fault.depended_on_line_deleted",
        "probe.untouched_application_saved", "probe.savefile_with_3_or_more_lines", "probe.negative_value_saved", "probe.float_saved", "probe.toggle_saved", "probe.string_with_special_characters_saved", "probe.array_saved", "probe.non_default_preset_saved",
-       "probe.subtree_parameter_saved", "probe.pointer_subtree_parameter_saved", "probe.disabled_subtree_pruned", "probe.option_saved", "probe.all_permutations_enumerated", "probe.permutations_sampled", "probe.file_with_dependency_between_lines", "probe.torn_file_accepted_partially", "probe.application_name_with_a_blank" };
+       "probe.subtree_parameter_saved", "probe.pointer_subtree_parameter_saved", "probe.disabled_subtree_pruned", "probe.option_saved", "probe.all_permutations_enumerated", "probe.permutations_sampled", "probe.file_with_dependency_between_lines", "probe.torn_file_accepted_partially", "probe.application_name_with_a_blank", "probe.unknown_port_named_like_a_port_plus_suffix" };
 
 enum { OP_SET = 0, OP_CYCLE, OP_FILL };
 enum { FL_NONE = 0, FL_LOST, FL_TORN, FL_FLIP, FL_HEADER, FL_APP, FL_GARBAGE, FL_UNKNOWN, FL_N };
@@ -105,7 +105,9 @@ struct SaveWorld : World {
         }
         if (!n) return; Loc d; d.obj = in.obj; in.d->ports->dispatch(buf, d, true);
     }
-    static std::string save(Inst &in) { std::set<std::string> written; return rtosc::save_to_file(*in.d->ports, in.obj, g_appname.c_str(), rtosc_version{1, 2, 3}, written, {}); }
+    // the stack below the save call holds a known non-zero pattern, so that a read of never-written stack bytes does not depend on earlier calls
+    static void __attribute__((noinline)) dirty_stack() { volatile char buf[1048576]; memset((void *)buf, 0xA5, sizeof buf); asm volatile("" ::: "memory"); }
+    static std::string save(Inst &in) { dirty_stack(); std::set<std::string> written; return rtosc::save_to_file(*in.d->ports, in.obj, g_appname.c_str(), rtosc_version{1, 2, 3}, written, {}); }
     static int load(Inst &in, const std::string &text) { stat_add(ST_LOADS); return rtosc::load_from_file(text.c_str(), *in.d->ports, in.obj, g_appname.c_str(), rtosc_version{1, 2, 3}); }
 
     Result exec(const std::string &prop, const Knobs &k, const Plan &plan, Choices &) override {
@@ -162,7 +164,13 @@ struct SaveWorld : World {
                 std::string other = (op.a[1] % 5 == 0) ? std::string("otherapp") : (op.a[1] % 5 == 4) ? own.substr(0, own.size() - 1) : own + suffix[op.a[1] % 5];   // also names that start with, or are a prefix of, the loader's own
                 file = text.substr(0, a) + "% " + other + " v1.2.3" + (e == std::string::npos ? "" : text.substr(e)); } expect_reject = true; break;
             case FL_GARBAGE: stat_add(F_GARBAGE); file = header_of(text); if (file.back() != '\n') file += "\n"; { size_t at = lines.empty() ? 0 : (size_t)(op.a[1] % (int64_t)(lines.size() + 1)); for (size_t i = 0; i < lines.size(); i++) { if (i == at) file += "/i_pos $$$ not a value\n"; file += lines[i] + "\n"; } if (at >= lines.size()) file += "/i_pos $$$ not a value\n"; } expect_reject = true; break;
-            case FL_UNKNOWN: stat_add(F_UNKNOWN_PORT); file = text + (lines.empty() && text.back() == '\n' ? "" : "\n") + "/no_such_port 1"; expect_reject = true; break;
+            case FL_UNKNOWN: { stat_add(F_UNKNOWN_PORT); std::string bad = "/no_such_port 1";
+                // half of the time the unknown port is an existing scalar port's address with something appended (a table looked up by hash must not take it for that port)
+                if (op.a[1] & 1) { std::vector<const Param *> c; for (auto &pp : *d.params) if (pp.elems == 1 && (pp.type == 'i' || pp.type == 'T' || pp.type == 'f' || pp.type == 'o')) c.push_back(&pp);
+                    if (!c.empty()) { const Param &pp = *c[(size_t)((op.a[1] >> 1) % (int64_t)c.size())]; static const char *sfx[] = {"x", "2", "_old", "bet", "0", "_", "zz", "abcd", "y1", "s"}; std::string ba = pp.addr + sfx[(op.a[2] >> 3) % 10];
+                        for (auto &q : *d.params) if (q.addr == ba || (q.elems > 1 && ba.compare(0, q.addr.size(), q.addr) == 0 && ba.find_first_not_of("0123456789", q.addr.size()) == std::string::npos)) ba = pp.addr + "_no_such";   // (not by accident the name of another port)
+                        bad = ba + (pp.type == 'i' || pp.type == 'o' ? " 1" : pp.type == 'f' ? " 0.5" : " true"); stat_add(P_NEAR_MISS_PORT); } }
+                file = text + (lines.empty() && text.back() == '\n' ? "" : "\n") + bad; expect_reject = true; break; }
             }
             // ---- crash: the process dies, only the file survives; restart: a default-initialised instance loads it
             delete cur; cur = new Inst(d); touched = false;
